@@ -79,6 +79,43 @@ def run(ck):
                                                          "descr": descr, "model": model, "impl": real})
 
     s.after_apply.append(shift_model)
+    div_corr = {"same": 0, "differ": 0, "theorem_applies": 0, "outside_theorem_hypotheses": 0}
+
+    def divide_model(p, q, op, descr, site, replay):
+        # correspondence of DivideLoop.divide_guard_proc / divide_perfect_proc (C01_divide_*_proc) with the real
+        # Procedure.divide_loop(tail='guard') and divide_loop(perfect=True): identical terms
+        if op != "divide_loop":
+            return
+        import ast, re
+        m = re.match(r"N(\[.*?\]) by=(\d+) (tail=guard|perfect)$", descr)
+        if not m:
+            return
+        path = ast.literal_eval(m.group(1))
+        node, outer = p._loopir_proc, q._loopir_proc
+        for attr, idx in path:
+            node, outer = getattr(node, attr)[idx], getattr(outer, attr)[idx]
+        inner = outer.body[0]
+        name = s.sc.ref(p)
+        ex = s.sc.ex
+        real = ex.proc_sexp(q._loopir_proc)
+        kind = "divguard" if m.group(3) == "tail=guard" else "divperfect"
+        job = "%s %s %s %s %s" % (name, ex.sym(node.iter), ex.sym(outer.iter), ex.sym(inner.iter), m.group(2))
+        model = s.sc.interp.ask("(%s %s)" % (kind, job))
+        inside = s.sc.interp.ask("(%sok %s)" % (kind, job)).strip() == "ok"
+        defs = {n: sx for (n, sx) in ex.procs.values()}
+        stream = "divide_loop-model-vs-impl"
+        ck.case(stream, (replay["program"], descr), sample={"loop": str(node.iter), "by": m.group(2), "mode": m.group(3)},
+                tag=kind + (":inside-theorem" if inside else ":outside-theorem-hypotheses"))
+        div_corr["theorem_applies" if inside else "outside_theorem_hypotheses"] += 1
+        if expand(model, defs) == expand(real, defs):
+            div_corr["same"] += 1
+            ck.corr_agree(stream)
+        else:
+            div_corr["differ"] += 1
+            ck.corr_diverge(stream, {"program": replay["program"], "source": replay["source"],
+                                     "descr": descr, "model": model, "impl": real})
+
+    s.after_apply.append(divide_model)
     findings = s.run(n_programs=ck.n(60, 600), budget_s=ck.n(110, 1300))
     # second stream: aliasing stress (windows of windows, the same cell reached through two names) under the
     # operations whose side conditions are location-set queries
@@ -97,6 +134,7 @@ def run(ck):
     ck.cov["search_aliasing_stress"] = s2.stats
     ck.cov["context_contract"] = ctx_stats
     ck.cov["shift_loop_model_correspondence"] = shift_corr
+    ck.cov["divide_loop_model_correspondence"] = div_corr
     ck.cov["operation_crashes"] = s.crashes
     ck.cov["inputs_run_in_reference_semantics"] = s.sc.runs + s2.sc.runs
     ck.cov["comparisons_where_source_ran_to_completion"] = s.sc.nontrivial
